@@ -223,6 +223,9 @@ func Entry(e *yang.Entry, o Opts, problems *[]string) *yref.XNode {
 		if e.Type != nil {
 			x.DefaultVal = e.DefaultValues()
 		}
+		if ns := e.Namespace(); ns != nil {
+			x.NSURI = ns.Name
+		}
 		im, err := e.InstantiatingModule()
 		if err != nil {
 			*problems = append(*problems, fmt.Sprintf("InstantiatingModule(%s): %v", e.Path(), err))
@@ -337,6 +340,9 @@ func Diff(want, got *yref.XNode, o DiffOpts, path string) *D {
 	}
 	if o.NS && want.NS != got.NS && !(o.SkipImplicitCaseNS && want.Implicit) {
 		return &D{path, "namespace", fmt.Sprintf("expected module %s, observed %s", want.NS, got.NS)}
+	}
+	if o.NS && want.NSURI != "" && want.NSURI != got.NSURI && !(o.SkipImplicitCaseNS && want.Implicit) {
+		return &D{path, "namespace-uri", fmt.Sprintf("expected %s (module %s), Namespace() reports %q", want.NSURI, want.NS, got.NSURI)}
 	}
 	if o.ReadOnly && want.ReadOnly != got.ReadOnly {
 		return &D{path, "read-only", fmt.Sprintf("expected %v, observed %v", want.ReadOnly, got.ReadOnly)}
